@@ -29,6 +29,7 @@ for P in ${SEEDS:-C05 C16 C18 C15 C09 C11 C10 C14 C01 C04 C02 C03 C06 C20 C07 C1
   L="${F[$P]}"
   case "$mod" in
     *core/collocation.py) L="${F[C05]}";;
+    *ParaDiag*) L="${F[C15]}";;
     *core/sweeper.py|*sweeper_classes/*) L="${F[C03]} $T/test_sweepers/test_Runge_Kutta_sweeper.py";;
     *core/step.py|*core/level.py|*core/controller.py|*pysdc_helper.py|*core/common.py|*core/convergence_controller.py) L="${F[C20]} $T/test_convergence_controllers/test_check_convergence.py";;
     *controller_nonMPI.py) L="${F[C19]} $T/test_controllers";;
